@@ -177,12 +177,24 @@ def pipe_induction(ctx):
     """Apalache: the inductive invariant of the pipe protocol (spec/apalache/PipeInd.tla) for an arbitrary upstream length and
     2, 3, 4 workers: Init => IndInv, IndInv /\\ Next => IndInv', IndInv => Safety; negative controls: a false bound is refuted
     from IndInit (the invariant is satisfiable), a protocol without the turn check breaks the invariant."""
-    for ci in ("ConstInit2", "ConstInit3", "ConstInit4"):
+    for ci in ("ConstInit2Any", "ConstInit3Any", "ConstInit4Any"):      # arbitrary channel capacity as well
         vlib.apalache(ctx, "PipeInd", ci, "Init", "IndInv", 0)
         vlib.apalache(ctx, "PipeInd", ci, "IndInit", "IndInv", 1)
         vlib.apalache(ctx, "PipeInd", ci, "IndInit", "Safety", 0)
     vlib.apalache(ctx, "PipeIndNeg", "ConstInit2", "IndInit", "FalseInv", 0, expect_error=True)
     vlib.apalache(ctx, "PipeIndNeg", "ConstInit2", "IndInit", "IndInv", 1, nxt="BadNext", expect_error=True)
+
+
+def buffered_induction(ctx):
+    """Apalache: inductive invariant of the Buffered protocol (spec/apalache/BufferedInd.tla) for an arbitrary upstream length
+    and an arbitrary buffer size (and for the rendezvous channel, capacity 0, on its own); negative controls: the producer that
+    ignores the failed send (the defect D5 of the pinned commit) breaks the invariant, a false bound is refuted."""
+    for ci in ("ConstInitAny", "ConstInit0"):
+        vlib.apalache(ctx, "BufferedInd", ci, "Init", "IndInv", 0)
+        vlib.apalache(ctx, "BufferedInd", ci, "IndInit", "IndInv", 1)
+        vlib.apalache(ctx, "BufferedInd", ci, "IndInit", "Safety", 0)
+    vlib.apalache(ctx, "BufferedInd", "ConstInit1", "IndInit", "IndInv", 1, nxt="BadNext", expect_error=True)
+    vlib.apalache(ctx, "BufferedInd", "ConstInit1", "IndInit", "FalseInv", 0, expect_error=True)
 
 
 def pipe_confirm_free(ctx, case, clauses):
@@ -454,6 +466,7 @@ def c09(ctx):
                        "a hang is declared after 1.5 s (controlled step), 3 s (producer exit) or 10 s (child process) for work of microseconds; timing-only verdicts are re-run once"]
     if not q:
         pipe_induction(ctx)
+        buffered_induction(ctx)
     # design: panic with / without the hook
     for (W, N) in ([(2, 3)] if q else [(2, 4), (3, 4)]):
         lens = "{%d}" % N
